@@ -68,6 +68,7 @@ package database
 //@   ensures[C15.lwp-real] loadsOK(mainDBPath) && (loadsOK(personalDBPath) || fileMissing(personalDBPath)) ==> result1 == nil
 //@   ensures[C15.lwp-main-fails] !loadsOK(mainDBPath) ==> result1 != nil
 //@   ensures[C01.lwp-inv+C03.lwp-inv] result1 == nil ==> dbInv(result0)
+//@   hint[C08.merge-order] BuildUniversalIndex len(db.Commands) == len(mainDB.Commands) + len(personalDB.Commands) && (forall k int :: 0 <= k && k < len(mainDB.Commands) ==> db.Commands[k] == mainDB.Commands[k]) && (forall k int :: 0 <= k && k < len(personalDB.Commands) ==> db.Commands[len(mainDB.Commands) + k] == personalDB.Commands[k])
 //@   ensures[C03.lwp-index-current] result1 == nil ==> result0.uIndex != nil && result0.uIndex.N == len(result0.Commands) && idxOK(result0)
 
 // ---------------------------------------------------------------------------
